@@ -68,6 +68,13 @@ NInf == [k |-> "ninf", v |-> 0]
 NZ   == [k |-> "nz",   v |-> 0]
 F0   == Fin(0)
 IsFinite(a) == a.k \in {"fin", "nz"}
+\* "pbig" / "nbig": the greatest finite magnitude of the field's width (+-MaxFloat64 in a double field,
+\* +-MaxFloat32 in a float field): a real number, farther from every other value than any tolerance
+PBig == [k |-> "pbig", v |-> 0]
+NBig == [k |-> "nbig", v |-> 0]
+IsBig(a) == a.k \in {"pbig", "nbig"}
+IsNum(a) == IsFinite(a) \/ IsBig(a)        \* a real number
+IsInf(a) == a.k \in {"pinf", "ninf"}
 
 NoOF == [has |-> FALSE, v |-> F0]
 SomeF(a) == [has |-> TRUE, v |-> a]
@@ -196,11 +203,24 @@ Norm(x) == [x EXCEPT !.of = [@ EXCEPT !.v = NormF(@)],
 (*           left unspecified (Unspec) and only reflexivity / symmetry are *)
 (*           asserted for it                                               *)
 FloatWithin(fr, mg, a, b) ==
-  \* finite values only; NaN / +-Inf under a tolerance: not asserted (the property's
-  \* "reflexive" and "exactly within tolerance" contradict each other there)
   IF IsFinite(a) /\ IsFinite(b)
     THEN 8 * AbsI(a.v - b.v) <= MaxI(8 * mg, fr * MinI(AbsI(a.v), AbsI(b.v)))
-    ELSE FloatEq(a, b)
+  \* two real numbers one of which is the greatest magnitude: within tolerance only if identical (the
+  \* generated fractions are < 2, so not even +big / -big, whose distance is twice their magnitude)
+  ELSE IF IsNum(a) /\ IsNum(b) THEN a.k = b.k
+  \* an infinity against a real number, or against the opposite infinity: the distance is infinite,
+  \* beyond every finite tolerance
+  ELSE IF (IsInf(a) /\ IsNum(b)) \/ (IsNum(a) /\ IsInf(b)) \/ (IsInf(a) /\ IsInf(b) /\ a.k # b.k) THEN FALSE
+  \* NaN against anything, an infinity against itself: NOT asserted (placeholder; see PairJudged)
+  ELSE FloatEq(a, b)
+\* What the property settles for a pair of float leaves under a float tolerance.  Not settled: NaN
+\* ("reflexive" and "exactly the pairs within tolerance" contradict each other), an infinity against
+\* the same infinity (likewise), and +Inf against -Inf under a fraction > 0 (the stated relative
+\* tolerance "fraction of the smaller magnitude" is itself infinite there).
+PairJudged(frpos, a, b) ==
+  \/ IsNum(a) /\ IsNum(b)
+  \/ (IsInf(a) /\ IsNum(b)) \/ (IsNum(a) /\ IsInf(b))
+  \/ IsInf(a) /\ IsInf(b) /\ a.k # b.k /\ ~frpos
 IntWithin(d, a, b) == a.e = b.e /\ AbsI(a.t - b.t) <= d      \* different anchors: beyond every tolerance (see NoT)
 
 NotOk == [ok |-> FALSE, eq |-> FALSE]
@@ -241,7 +261,7 @@ NoCfg == One(<<>>)
 ----------------------------------------------------------------------------
 (* Leaves of a kind: used to say "finite", "differences", "own kind".      *)
 FloatLeaves(x) == {x.fl, x.db, x.of.v, x.mf.k1.v, x.mf.k2.v, x.nn.fl} \cup { x.rd[k] : k \in 1..Len(x.rd) }
-AllFinite(x) == \A a \in FloatLeaves(x) : IsFinite(a)
+AllFinite(x) == \A a \in FloatLeaves(x) : IsNum(a)        \* real numbers only (no NaN, no infinity)
 FloatPairs(x, y) ==
   {<<x.fl, y.fl>>, <<x.db, y.db>>, <<x.nn.fl, y.nn.fl>>, <<x.of.v, y.of.v>>, <<x.mf.k1.v, y.mf.k1.v>>, <<x.mf.k2.v, y.mf.k2.v>>}
   \cup { <<x.rd[k], y.rd[k]>> : k \in 1..MinI(Len(x.rd), Len(y.rd)) }
@@ -275,7 +295,7 @@ CTOneSided(x, y) == \E k \in 1..MinI(Len(x.ch), Len(y.ch)) : x.ch[k].ct.has # y.
 (* Generators: the value sets contain neighbours (8, 9, 10 ...) so that    *)
 (* nearly-equal pairs are frequent.                                        *)
 GFv == {-16, -8, -1, 0, 1, 2, 4, 8, 9, 10, 16, 18}
-GFl == { Fin(v) : v \in GFv } \cup {NaN, PInf, NInf, NZ}
+GFl == { Fin(v) : v \in GFv } \cup {NaN, PInf, NInf, NZ, PBig, NBig}
 GFlFin == { Fin(v) : v \in GFv }
 GTv == {-3, 0, 1, 2, 5, 6, 12}
 GFarT == {FarT(0, -1), FarT(1, -1), FarT(0, 1), FarT(0, 2), FarT(0, -2)}      \* zero time, year 9999, UnixNano limits
@@ -302,7 +322,7 @@ G(f) ==
     [] f = "fl" -> GFl
     [] f = "db" -> GFl
     [] f = "of" -> {NoOF} \cup { SomeF(a) : a \in GFl }
-    [] f = "rd" -> {<<>>, <<F0>>, <<Fin(8)>>, <<Fin(9)>>, <<NZ>>, <<NaN>>, <<Fin(8), Fin(16)>>, <<Fin(8), Fin(18)>>,
+    [] f = "rd" -> {<<PBig>>, <<NBig>>, <<NInf, Fin(1)>>, <<>>, <<F0>>, <<Fin(8)>>, <<Fin(9)>>, <<NZ>>, <<NaN>>, <<Fin(8), Fin(16)>>, <<Fin(8), Fin(18)>>,
                     <<Fin(16), Fin(8)>>, <<Fin(9), Fin(16), F0>>, <<PInf, Fin(1)>>}
     [] f = "mf" -> {NoMF, [k1 |-> SomeF(F0), k2 |-> NoOF], [k1 |-> SomeF(Fin(8)), k2 |-> NoOF], [k1 |-> NoOF, k2 |-> SomeF(Fin(8))],
                     [k1 |-> SomeF(Fin(9)), k2 |-> SomeF(Fin(-8))], [k1 |-> SomeF(Fin(8)), k2 |-> SomeF(Fin(-8))],
@@ -343,7 +363,7 @@ RandT(z) == [ty |-> "T", i |-> RandomElement(G("i")), s |-> RandomElement(G("s")
              mw |-> RandomElement(G("mw")), nn |-> RandomElement(G("nn")), u |-> RandomElement(G("u")),
              unk |-> RandomElement(G("unk")), ch |-> <<>>, act |-> NoT]
 \* the same with finite floats only (so that tolerance clauses are asserted on it)
-Finite(x) == LET fx(a) == IF IsFinite(a) THEN a ELSE Fin(4) IN
+Finite(x) == LET fx(a) == IF IsNum(a) THEN a ELSE Fin(4) IN
   [x EXCEPT !.fl = fx(@), !.db = fx(@), !.of = [@ EXCEPT !.v = fx(@)], !.rd = [k \in 1..Len(@) |-> fx(@[k])],
             !.mf = [k1 |-> [@.k1 EXCEPT !.v = fx(@)], k2 |-> [@.k2 EXCEPT !.v = fx(@)]], !.nn = [@ EXCEPT !.fl = fx(@)]]
 RandAnc(z) == LET r == RandomElement(1..10) IN
@@ -492,6 +512,25 @@ GenFar(n) ==
       cfg == Pick(<< One(<<T1(Cm("time", tol, 0)), T1(Cm("dur", tol, 0))>>), One(<<T1(Cm("time", tol, 0))>>),
                      One(<<T1(Cm("dur", tol, 0))>>) >>)
   IN [k |-> "cmp", n |-> n, x |-> x, y |-> y, cfg |-> cfg, sc |-> RandomElement(0..3), tb |-> RandomElement(0..3)]
+\* a stratum for the ends of the float range: one double, one float and one list element taken from
+\* infinities, greatest magnitudes and ordinary values, under a float tolerance
+GenInf(n) ==
+  LET vs == {Fin(8), Fin(9), PInf, NInf, PBig, NBig, F0}
+      x  == [Dense EXCEPT !.db = RandomElement(vs), !.fl = RandomElement({Fin(8), PInf, PBig, NBig}), !.rd = <<RandomElement(vs), Fin(16)>>]
+      y  == [x EXCEPT !.db = RandomElement(vs), !.rd = <<IF RandomElement(1..3) = 1 THEN RandomElement(vs) ELSE x.rd[1], Fin(16)>>]
+  IN [k |-> "cmp", n |-> n, x |-> x, y |-> y,
+      cfg |-> One(<<T1(Cm("float", Pick(<<0, 0, 1>>), RandomElement({0, 1, 8})))>>), sc |-> 1, tb |-> 0]
+\* a stratum for the change_time exception: Change messages that differ in nothing but their
+\* change_time, the two stamps taken across magnitudes and anchors (so that they encode to different
+\* lengths: zero, ns-only, seconds-only, negative seconds, year 9999)
+GenCT(n) ==
+  LET cts == {SomeT(0), SomeT(1), SomeT(5), SomeT(12), FarT(0, -1), FarT(5, -1), FarT(0, 1), FarT(0, 2), FarT(0, -2)}
+      C(nm, ct, on) == [nm |-> nm, ct |-> ct, on |-> on, uk |-> <<>>]
+      two == RandomElement(1..2) = 1
+      x  == [Empty("P") EXCEPT !.ch = IF two THEN <<C(1, RandomElement(cts), 1), C(0, RandomElement(cts), 2)>> ELSE <<C(1, RandomElement(cts), 1)>>]
+      y  == [x EXCEPT !.ch = IF two THEN <<C(1, RandomElement(cts), 1), C(0, x.ch[2].ct, 2)>> ELSE <<C(1, RandomElement(cts), 1)>>]
+  IN [k |-> "cmp", n |-> n, x |-> x, y |-> y, cfg |-> IF n % 4 = 0 THEN One(<<T1(Cm("float", 0, 1))>>) ELSE NoCfg,
+      sc |-> RandomElement(0..3), tb |-> RandomElement(0..3)]
 \* the exhaustive core: every single replacement against each ancestor, default comparer
 ExhaustiveCmp == UNION { { [k |-> "cmp", n |-> 0, x |-> a, y |-> y, cfg |-> NoCfg, sc |-> 1, tb |-> 0] : y \in Mut1(a) } : a \in Ancestors }
 
@@ -547,7 +586,8 @@ GenStream(n) ==
       init |-> IF isVal /\ RandomElement(1..3) # 1 THEN [has |-> TRUE, v |-> a] ELSE [has |-> FALSE, v |-> Empty("T")],
       writes |-> ws, subs |-> <<sub(1), sub(2), sub(3)>>, sc |-> RandomElement(0..3), tb |-> RandomElement(0..3)]
 
-GenInit == c \in { GenCmp(n) : n \in 1..NCases } \cup { GenDurP(n) : n \in 1..(NCases \div 50) } \cup { GenFar(n) : n \in 1..(NCases \div 20) } \cup ExhaustiveCmp \cup { GenStream(n) : n \in 1..(NCases \div 5) }
+GenInit == c \in { GenCmp(n) : n \in 1..NCases } \cup { GenDurP(n) : n \in 1..(NCases \div 50) } \cup { GenFar(n) : n \in 1..(NCases \div 20) }
+           \cup { GenInf(n) : n \in 1..(NCases \div 25) } \cup { GenCT(n) : n \in 1..(NCases \div 25) } \cup ExhaustiveCmp \cup { GenStream(n) : n \in 1..(NCases \div 5) }
 GenNext == UNCHANGED c
 EmitCase == PrintT("CASE " \o ToJson(c))
 =============================================================================
